@@ -113,7 +113,7 @@ func getRegexp(env *lisp.LEnv, v *lisp.LVal) (re *regexp.Regexp, lerr *lisp.LVal
 		return nil, env.Errorf("argument is not a regexp: %v", v.Type)
 	}
 	re, ok := v.Native.(*regexp.Regexp)
-	if !ok {
+	if !ok || re == nil {
 		return nil, env.Errorf("argument is not a regexp: %v", v)
 	}
 	return re, nil
